@@ -5,6 +5,7 @@ integers are Python ints when concrete and z3 Int terms when symbolic; control f
 branches and each side is kept only if it is satisfiable together with the path condition.
 """
 import os
+import time
 import re
 from fractions import Fraction
 
@@ -371,6 +372,8 @@ class Machine:
         self.used_models = set()
         self.used_funcs = set()
         self.max_steps = 200000
+        self.deadline = None     # absolute wall-clock deadline of the whole plan (set by mengine.run_set)
+        self.run_budget_s = float(os.environ.get("MIRSYM_RUN_BUDGET_S", "150"))   # wall-clock cap for exploring ONE call (never hit on the pinned tree: max 3 s)
         self._index = None
         self._lin = {}
         self.linear_only = True
@@ -867,8 +870,14 @@ class Machine:
         outs = []
         depth0 = len(st0.frames)
         verbose = os.environ.get("MIRSYM_VERBOSE")
+        t_run = time.time()
         while work:
             st = work.pop()
+            if self.deadline is not None and time.time() > self.deadline:
+                raise Unsupported("engine-M plan budget used up during exploration (%d paths finished, %d pending)" % (len(outs), len(work) + 1))
+            if time.time() - t_run > self.run_budget_s:
+                raise Unsupported("exploration budget of %.0f s used up with %d paths finished and %d pending: the function forks on conditions "
+                                  "the linear feasibility filter cannot prune" % (self.run_budget_s, len(outs), len(work) + 1))
             if verbose and len(outs) % 50 == 0 and len(outs):
                 print("  [mirsym] %d paths finished, %d pending, %d feasibility queries, %.1fs in solver" % (len(outs), len(work), self.queries, self.solver_s), flush=True)
             while True:
